@@ -234,16 +234,18 @@ impl TryFrom<(&Config, &CompassAppBuilder)> for CompassApp {
                 .join("target")
                 .join("flamegraph");
 
-            if !outdir.exists() {
-                std::fs::create_dir(&outdir).unwrap();
-            }
-
             let outfile = outdir.join("graph_memory_flamegraph.out");
 
             log::debug!("writing graph flamegraph to {:?}", outfile);
 
-            let mut output_file = std::fs::File::create(outfile).unwrap();
-            output_file.write_all(output.as_bytes()).unwrap();
+            // diagnostics only: a location that cannot be written (or that another application
+            // is creating at this moment) must not fail the build of the application
+            let written = std::fs::create_dir_all(&outdir)
+                .and_then(|_| std::fs::File::create(&outfile))
+                .and_then(|mut output_file| output_file.write_all(output.as_bytes()));
+            if let Err(e) = written {
+                log::debug!("could not write graph flamegraph to {:?}: {}", outfile, e);
+            }
         }
 
         // build search app
